@@ -4,6 +4,7 @@ Module to provide for an encapsulation of the inline email autolink element.
 
 from typing import Optional, cast
 
+from pymarkdown.inline.inline_helper import InlineHelper
 from pymarkdown.tokens.inline_markdown_token import InlineMarkdownToken
 from pymarkdown.tokens.markdown_token import MarkdownToken
 from pymarkdown.transform_gfm.transform_state import TransformState
@@ -18,6 +19,8 @@ class EmailAutolinkMarkdownToken(InlineMarkdownToken):
     """
     Class to provide for an encapsulation of the inline email autolink element.
     """
+
+    __percent_escape_ascii_chars = "%^`{}|"
 
     def __init__(
         self,
@@ -118,13 +121,25 @@ class EmailAutolinkMarkdownToken(InlineMarkdownToken):
         _ = transform_state
 
         email_token = cast(EmailAutolinkMarkdownToken, next_token)
+        escaped_text = InlineHelper.append_text(
+            "", email_token.autolink_text, add_text_signature=False
+        )
+        href_text = "".join(
+            (
+                f"%{ord(next_character):02X}"
+                if next_character
+                in EmailAutolinkMarkdownToken.__percent_escape_ascii_chars
+                else next_character
+            )
+            for next_character in escaped_text
+        )
         return "".join(
             [
                 output_html,
                 '<a href="mailto:',
-                email_token.autolink_text,
+                href_text,
                 '">',
-                email_token.autolink_text,
+                escaped_text,
                 "</a>",
             ]
         )
